@@ -52,6 +52,9 @@ theorem extracted_requeuer_eq_model (w : Bool) (pol : TopicPolicy) (dest : POut)
       | fail x =>
         simp only [rqRun, Gen.requeuerBody, rqExec, rqExec1, requeuer, retriesKey_eq]
         cases he : (atoiGo ((List.lookup retriesKey m.md).getD [])).2 <;> simp [he, hp] at hn ⊢ <;> simp [hn]
+      | panic x =>
+        simp only [rqRun, Gen.requeuerBody, rqExec, rqExec1, requeuer, retriesKey_eq]
+        cases he : (atoiGo ((List.lookup retriesKey m.md).getD [])).2 <;> simp [he, hp] at hn ⊢ <;> simp [hn]
 
 theorem extracted_unwrap_eq_model (p : Parsed) :
     uwRun Gen.unwrapBody p = some (p.valid.map (fun e => (e.dest, e.msg))) := by
